@@ -1,8 +1,646 @@
-//! C18 — generator and driver of the real API.
+//! C18 — bit-packed containers behave like plain vectors.
+//!
+//! Three case kinds (one object per line, a whole operation history, one observation per operation):
+//!
+//! `bitenc w:<width> c:<cap> <op>,<op>,…`            c:0 → `BitEnc::new`, else `with_capacity`
+//!     ops  `p:<v>` push · `pv:<n>:<v>` push_values · `s:<i>:<v>` set (i < len) · `g:<i>` get · `it` iter · `clr` clear
+//!     obs  mutators `<nr_symbols>/<nr_blocks>` · get `<v>`|`N` · iter `v.v.v`|`-` · a panicking op `P` (history stops)
+//!     then ` | <len>/<nr_symbols>/<nr_blocks>/<is_empty> <iter> <get(len)>`   (` | P` after a panic)
+//! `si <i8|u8|u16|i16> <new|cap:<n>|fe:<v>:<n>> <op>,…`   SmallInts<i8,isize> / <u8,usize> / <u16,u64> / <i16,i64>
+//!     ops  `p:<v>` · `s:<i>:<v>` (i < len) · `g:<i>` · `it` · `dc` (decompress)
+//!     obs  mutators `<len>` · get `<v>`|`N` · it/dc `v.v.v`|`-` (a `None` item inside an iteration ends it, as in Rust)
+//!     then ` | <len>/<is_empty> <decompress>`
+//! `fw <sum|max> <len> <op>,…`                        SumBitTree<i64> / MaxBitTree<u32>
+//!     ops  `u:<idx>:<val>` set (idx < len) · `q:<idx>` get (idx < len);  obs `u` · `<value>`;  then ` | get(0).get(1)…`
 use crate::util::*;
+use bio::data_structures::bit_tree::{MaxBitTree, SumBitTree};
+use bio::data_structures::bitenc::BitEnc;
+use bio::data_structures::smallints::SmallInts;
+use std::panic::{catch_unwind, AssertUnwindSafe};
 
-pub fn gen(_tier: &str, _rng: &mut Rng, _out: &mut Vec<String>) {}
+fn dot<T: ToString>(xs: &[T]) -> String {
+    join(xs, ".")
+}
 
-pub fn exec(_toks: &[&str]) -> Result<String, String> {
-    Err("unimplemented".into())
+// ------------------------------------------------------------------------------------------------ BitEnc
+
+#[allow(deprecated)]
+fn exec_bitenc(toks: &[&str]) -> Result<String, String> {
+    if toks.len() != 4 {
+        return Err("arity".into());
+    }
+    let w: usize = parse(kv(toks[1], "w")?)?;
+    let cap: usize = parse(kv(toks[2], "c")?)?;
+    if !(1..=8).contains(&w) || cap > 100_000 {
+        return Err("width/cap".into());
+    }
+    let ops = split_list(toks[3], ',');
+    // parse everything first: a malformed line is not a case
+    enum Op {
+        P(u8),
+        Pv(usize, u8),
+        S(usize, u8),
+        G(usize),
+        It,
+        Clr,
+    }
+    let mut parsed = vec![];
+    for o in &ops {
+        let f: Vec<&str> = o.split(':').collect();
+        parsed.push(match (f[0], f.len()) {
+            ("p", 2) => Op::P(parse(f[1])?),
+            ("pv", 3) => {
+                let n: usize = parse(f[1])?;
+                if n > 5000 {
+                    return Err("pv count".into());
+                }
+                Op::Pv(n, parse(f[2])?)
+            }
+            ("s", 3) => Op::S(parse(f[1])?, parse(f[2])?),
+            ("g", 2) => Op::G(parse(f[1])?),
+            ("it", 1) => Op::It,
+            ("clr", 1) => Op::Clr,
+            _ => return Err(format!("bad op {}", o)),
+        });
+    }
+    let mut be = if cap == 0 { BitEnc::new(w) } else { BitEnc::with_capacity(w, cap) };
+    let mut obs: Vec<String> = vec![];
+    let mut panicked = false;
+    for op in &parsed {
+        if let Op::S(i, _) = op {
+            // `set` beyond the end is outside the property (plain vectors refuse it too)
+            if *i >= be.nr_symbols() {
+                return Err("set out of range".into());
+            }
+        }
+        let r = catch_unwind(AssertUnwindSafe(|| match op {
+            Op::P(v) => {
+                be.push(*v);
+                format!("{}/{}", be.nr_symbols(), be.nr_blocks())
+            }
+            Op::Pv(n, v) => {
+                be.push_values(*n, *v);
+                format!("{}/{}", be.nr_symbols(), be.nr_blocks())
+            }
+            Op::S(i, v) => {
+                be.set(*i, *v);
+                format!("{}/{}", be.nr_symbols(), be.nr_blocks())
+            }
+            Op::G(i) => match be.get(*i) {
+                Some(v) => v.to_string(),
+                None => "N".into(),
+            },
+            Op::It => dot(&be.iter().collect::<Vec<u8>>()),
+            Op::Clr => {
+                be.clear();
+                format!("{}/{}", be.nr_symbols(), be.nr_blocks())
+            }
+        }));
+        match r {
+            Ok(s) => obs.push(s),
+            Err(_) => {
+                obs.push("P".into());
+                panicked = true;
+                break;
+            }
+        }
+    }
+    let fin = if panicked {
+        "P".to_string()
+    } else {
+        match catch_unwind(AssertUnwindSafe(|| {
+            let vals: Vec<u8> = be.iter().collect();
+            let beyond = match be.get(be.nr_symbols()) {
+                Some(v) => v.to_string(),
+                None => "N".into(),
+            };
+            format!(
+                "{}/{}/{}/{} {} {}",
+                be.len(),
+                be.nr_symbols(),
+                be.nr_blocks(),
+                be.is_empty() as u8,
+                dot(&vals),
+                beyond
+            )
+        })) {
+            Ok(s) => s,
+            Err(_) => "P".into(),
+        }
+    };
+    Ok(format!("{} | {}", join(&obs, ","), fin))
+}
+
+fn per_block(w: usize) -> usize {
+    32 / w
+}
+
+fn be_value(rng: &mut Rng, w: usize, masked: bool) -> u8 {
+    let m = ((1u32 << w) - 1) as u8;
+    if masked {
+        return match rng.below(5) {
+            0 => 0,
+            1 => m,
+            _ => (rng.below(256) as u8) & m,
+        };
+    }
+    match rng.below(8) {
+        0 => 0,
+        1 => m,
+        2 => m.wrapping_add(1), // 2^w (0 for w = 8)
+        3 => 255,
+        4 => (rng.below(256) as u8) & m,
+        5 => (rng.below(256) as u8) | m.wrapping_add(1),
+        _ => rng.below(256) as u8,
+    }
+}
+
+fn gen_bitenc(rng: &mut Rng, w: usize, nops: usize) -> String {
+    let per = per_block(w);
+    let clean = rng.chance(1, 2); // histories that stay clear of the two recorded push_values defects
+    let mut len = 0usize;
+    let mut ops: Vec<String> = vec![];
+    // optional prefix that puts the fill state at a chosen slot of a block
+    if rng.chance(1, 3) {
+        let pre = rng.below(2 * per + 1);
+        for _ in 0..pre.min(12) {
+            ops.push(format!("p:{}", be_value(rng, w, clean)));
+            len += 1;
+        }
+    }
+    while ops.len() < nops {
+        let r = rng.below(100);
+        if r < 28 {
+            ops.push(format!("p:{}", be_value(rng, w, false)));
+            len += 1;
+        } else if r < 55 {
+            let rem = if len % per == 0 { 0 } else { per - len % per };
+            let mut n = match rng.below(10) {
+                0 => 0,
+                1 => rem,
+                2 => rem + 1,
+                3 => rem.saturating_sub(1),
+                4 => rem + per,
+                5 => rem + per + 1,
+                6 => rem + per * (1 + rng.below(3)) - rng.below(2),
+                7 => rng.below(per + 2),
+                _ => rng.below(71),
+            };
+            if n > 70 {
+                n = 70;
+            }
+            if clean && 32 % w != 0 && rem > 0 && n == rem + 1 {
+                n += 1;
+            }
+            ops.push(format!("pv:{}:{}", n, be_value(rng, w, clean)));
+            len += n;
+        } else if r < 68 {
+            if len == 0 {
+                continue;
+            }
+            let i = match rng.below(4) {
+                0 => len - 1,
+                1 => (len / per) * per % len,
+                2 => ((len / per) * per).saturating_sub(1).min(len - 1),
+                _ => rng.below(len),
+            };
+            ops.push(format!("s:{}:{}", i, be_value(rng, w, false)));
+        } else if r < 85 {
+            let i = match rng.below(6) {
+                0 => len,
+                1 => len + 1 + rng.below(per + 1),
+                2 => len.saturating_sub(1),
+                3 => len + 1000,
+                _ => rng.below(len + 1),
+            };
+            ops.push(format!("g:{}", i));
+        } else if r < 95 {
+            ops.push("it".into());
+        } else {
+            ops.push("clr".into());
+            len = 0;
+        }
+    }
+    let cap = if rng.chance(1, 5) { 1 + rng.below(100) } else { 0 };
+    format!("bitenc w:{} c:{} {}", w, cap, ops.join(","))
+}
+
+// ------------------------------------------------------------------------------------------------ SmallInts
+
+/// the four (S, B) pairs; the numeric plumbing is done over i128 so that one generic history runner serves all
+mod num_like {
+    pub trait SmallT: Copy {
+        fn from_i128(v: i128) -> Option<Self>;
+    }
+    pub trait BigT: Copy + ToString {
+        fn from_i128(v: i128) -> Option<Self>;
+    }
+    macro_rules! imp {
+        ($tr:ident: $($t:ty),*) => {$(impl $tr for $t {
+            fn from_i128(v: i128) -> Option<Self> { if v >= <$t>::MIN as i128 && v <= <$t>::MAX as i128 { Some(v as $t) } else { None } }
+        })*};
+    }
+    imp!(SmallT: i8, u8, u16, i16);
+    imp!(BigT: isize, usize, u64, i64);
+}
+
+enum SiOp {
+    P(i128),
+    S(usize, i128),
+    G(usize),
+    It,
+    Dc,
+}
+
+fn parse_si_ops(s: &str) -> Result<Vec<SiOp>, String> {
+    let mut out = vec![];
+    for o in split_list(s, ',') {
+        let f: Vec<&str> = o.split(':').collect();
+        out.push(match (f[0], f.len()) {
+            ("p", 2) => SiOp::P(parse(f[1])?),
+            ("s", 3) => SiOp::S(parse(f[1])?, parse(f[2])?),
+            ("g", 2) => SiOp::G(parse(f[1])?),
+            ("it", 1) => SiOp::It,
+            ("dc", 1) => SiOp::Dc,
+            _ => return Err(format!("bad op {}", o)),
+        });
+    }
+    Ok(out)
+}
+
+macro_rules! si_runner {
+    ($name:ident, $S:ty, $B:ty) => {
+        fn $name(ctor: &str, ops: &[SiOp]) -> Result<String, String> {
+            use num_like::{BigT, SmallT};
+            // validate values first
+            for op in ops {
+                match op {
+                    SiOp::P(v) | SiOp::S(_, v) => {
+                        if <$B as BigT>::from_i128(*v).is_none() {
+                            return Err("value outside the big type".into());
+                        }
+                    }
+                    _ => {}
+                }
+            }
+            let f: Vec<&str> = ctor.split(':').collect();
+            let made = match (f[0], f.len()) {
+                ("new", 1) => Ok(SmallInts::<$S, $B>::new()),
+                ("cap", 2) => {
+                    let n: usize = parse(f[1])?;
+                    if n > 100_000 {
+                        return Err("cap".into());
+                    }
+                    Ok(SmallInts::<$S, $B>::with_capacity(n))
+                }
+                ("fe", 3) => {
+                    let v: i128 = parse(f[1])?;
+                    let n: usize = parse(f[2])?;
+                    if n > 5000 {
+                        return Err("fe count".into());
+                    }
+                    let sv = <$S as SmallT>::from_i128(v).ok_or("value outside the small type")?;
+                    catch_unwind(|| SmallInts::<$S, $B>::from_elem(sv, n)).map_err(|_| ())
+                }
+                _ => return Err("ctor".into()),
+            };
+            let mut si = match made {
+                Ok(x) => x,
+                Err(()) => return Ok("P | P".into()),
+            };
+            let show = |x: Option<$B>| match x {
+                Some(v) => v.to_string(),
+                None => "N".into(),
+            };
+            let mut obs: Vec<String> = vec![];
+            let mut panicked = false;
+            for op in ops {
+                if let SiOp::S(i, _) = op {
+                    if *i >= si.len() {
+                        return Err("set out of range".into());
+                    }
+                }
+                let r = catch_unwind(AssertUnwindSafe(|| match op {
+                    SiOp::P(v) => {
+                        si.push(<$B as BigT>::from_i128(*v).unwrap());
+                        si.len().to_string()
+                    }
+                    SiOp::S(i, v) => {
+                        si.set(*i, <$B as BigT>::from_i128(*v).unwrap());
+                        si.len().to_string()
+                    }
+                    SiOp::G(i) => show(si.get(*i)),
+                    SiOp::It => dot(&si.iter().collect::<Vec<$B>>()),
+                    SiOp::Dc => dot(&si.decompress()),
+                }));
+                match r {
+                    Ok(s) => obs.push(s),
+                    Err(_) => {
+                        obs.push("P".into());
+                        panicked = true;
+                        break;
+                    }
+                }
+            }
+            let fin = if panicked {
+                "P".to_string()
+            } else {
+                match catch_unwind(AssertUnwindSafe(|| {
+                    // element-wise through `get`, so that a lost element shows as N instead of ending an iteration
+                    let vals: Vec<String> = (0..si.len()).map(|i| show(si.get(i))).collect();
+                    format!("{}/{} {} {}", si.len(), si.is_empty() as u8, dot(&vals), show(si.get(si.len())))
+                })) {
+                    Ok(s) => s,
+                    Err(_) => "P".into(),
+                }
+            };
+            Ok(format!("{} | {}", join(&obs, ","), fin))
+        }
+    };
+}
+si_runner!(run_i8, i8, isize);
+si_runner!(run_u8, u8, usize);
+si_runner!(run_u16, u16, u64);
+si_runner!(run_i16, i16, i64);
+
+fn exec_si(toks: &[&str]) -> Result<String, String> {
+    if toks.len() != 4 {
+        return Err("arity".into());
+    }
+    let ops = parse_si_ops(toks[3])?;
+    match toks[1] {
+        "i8" => run_i8(toks[2], &ops),
+        "u8" => run_u8(toks[2], &ops),
+        "u16" => run_u16(toks[2], &ops),
+        "i16" => run_i16(toks[2], &ops),
+        _ => Err("type".into()),
+    }
+}
+
+/// (small min, small max, big min, big max)
+fn si_ranges(ty: &str) -> (i128, i128, i128, i128) {
+    match ty {
+        "i8" => (-128, 127, i64::MIN as i128, i64::MAX as i128),
+        "u8" => (0, 255, 0, u64::MAX as i128),
+        "u16" => (0, 65535, 0, u64::MAX as i128),
+        _ => (-32768, 32767, i64::MIN as i128, i64::MAX as i128),
+    }
+}
+
+fn si_value(rng: &mut Rng, ty: &str) -> i128 {
+    let (smin, smax, bmin, bmax) = si_ranges(ty);
+    let v = match rng.below(12) {
+        0 => smax,
+        1 => smax - 1,
+        2 => smax + 1,
+        3 => smax + 2 + rng.below(1000) as i128,
+        4 => smin,
+        5 => smin - 1,
+        6 => smin + 1,
+        7 => 0,
+        8 => {
+            if rng.chance(1, 2) {
+                bmax
+            } else {
+                bmin
+            }
+        }
+        9 => -(rng.below(300) as i128),
+        10 => smin - 2 - rng.below(100_000) as i128,
+        _ => rng.below(300) as i128,
+    };
+    v.clamp(bmin, bmax)
+}
+
+fn gen_si(rng: &mut Rng, ty: &str, nops: usize) -> String {
+    let (smin, smax, _, _) = si_ranges(ty);
+    let mut len = 0usize;
+    let ctor = match rng.below(10) {
+        0..=4 => "new".to_string(),
+        5 => format!("cap:{}", rng.below(50)),
+        _ => {
+            let v = match rng.below(8) {
+                0 => smax, // refused by from_elem
+                1 => smax - 1,
+                2 => smin,
+                3 => 0,
+                4 => (-(rng.below(100) as i128)).max(smin),
+                _ => rng.below(100) as i128,
+            };
+            let n = rng.below(12);
+            if v != smax {
+                len = n;
+            }
+            format!("fe:{}:{}", v, n)
+        }
+    };
+    let mut ops: Vec<String> = vec![];
+    while ops.len() < nops {
+        let r = rng.below(100);
+        if r < 40 {
+            ops.push(format!("p:{}", si_value(rng, ty)));
+            len += 1;
+        } else if r < 65 {
+            if len == 0 {
+                continue;
+            }
+            ops.push(format!("s:{}:{}", rng.below(len), si_value(rng, ty)));
+        } else if r < 85 {
+            let i = match rng.below(5) {
+                0 => len,
+                1 => len + 1 + rng.below(5),
+                _ => rng.below(len + 1),
+            };
+            ops.push(format!("g:{}", i));
+        } else if r < 93 {
+            ops.push("it".into());
+        } else {
+            ops.push("dc".into());
+        }
+    }
+    format!("si {} {} {}", ty, ctor, ops.join(","))
+}
+
+// ------------------------------------------------------------------------------------------------ Fenwick trees
+
+fn exec_fw(toks: &[&str]) -> Result<String, String> {
+    if toks.len() != 4 {
+        return Err("arity".into());
+    }
+    let n: usize = parse(toks[2])?;
+    if n == 0 || n > 5000 {
+        return Err("len".into());
+    }
+    let mut ops: Vec<(bool, usize, i64)> = vec![];
+    for o in split_list(toks[3], ',') {
+        let f: Vec<&str> = o.split(':').collect();
+        match (f[0], f.len()) {
+            ("u", 3) => {
+                let v: i64 = parse(f[2])?;
+                if v.abs() > 1_000_000_000 {
+                    return Err("value".into());
+                }
+                ops.push((true, parse(f[1])?, v))
+            }
+            ("q", 2) => ops.push((false, parse(f[1])?, 0)),
+            _ => return Err(format!("bad op {}", o)),
+        }
+    }
+    if ops.iter().any(|&(_, i, _)| i >= n) {
+        return Err("index out of range".into());
+    }
+    let mut obs: Vec<String> = vec![];
+    let fin;
+    match toks[1] {
+        "sum" => {
+            let mut t: SumBitTree<i64> = SumBitTree::new(n);
+            for &(upd, i, v) in &ops {
+                if upd {
+                    t.set(i, v);
+                    obs.push("u".into());
+                } else {
+                    obs.push(t.get(i).to_string());
+                }
+            }
+            fin = dot(&(0..n).map(|i| t.get(i)).collect::<Vec<i64>>());
+        }
+        "max" => {
+            if ops.iter().any(|&(u, _, v)| u && v < 0) {
+                return Err("max tree: non-negative values only".into());
+            }
+            let mut t: MaxBitTree<u32> = MaxBitTree::new(n);
+            for &(upd, i, v) in &ops {
+                if upd {
+                    t.set(i, v as u32);
+                    obs.push("u".into());
+                } else {
+                    obs.push(t.get(i).to_string());
+                }
+            }
+            fin = dot(&(0..n).map(|i| t.get(i)).collect::<Vec<u32>>());
+        }
+        _ => return Err("kind".into()),
+    }
+    Ok(format!("{} | {}", join(&obs, ","), fin))
+}
+
+fn gen_fw(rng: &mut Rng, nops: usize) -> String {
+    let kind = if rng.chance(1, 2) { "sum" } else { "max" };
+    let n = match rng.below(6) {
+        0 => 1 + rng.below(3),
+        1 => *rng.pick(&[7usize, 8, 9, 15, 16, 17, 31, 32, 33, 63, 64, 65]),
+        _ => 1 + rng.below(70),
+    };
+    let mut ops: Vec<String> = vec![];
+    for _ in 0..nops {
+        if rng.chance(3, 5) {
+            let i = match rng.below(5) {
+                0 => 0,
+                1 => n - 1,
+                _ => rng.below(n),
+            };
+            let v: i64 = if kind == "sum" { rng.range(-1000, 1000) } else { rng.range(0, 40) * rng.range(0, 25) };
+            ops.push(format!("u:{}:{}", i, v));
+        } else {
+            let i = match rng.below(5) {
+                0 => 0,
+                1 => n - 1,
+                _ => rng.below(n),
+            };
+            ops.push(format!("q:{}", i));
+        }
+    }
+    format!("fw {} {} {}", kind, n, ops.join(","))
+}
+
+// ------------------------------------------------------------------------------------------------ entry points
+
+fn enum_bitenc(w: usize, out: &mut Vec<String>) {
+    let per = per_block(w);
+    let m = (1u32 << w) - 1;
+    let mut alpha: Vec<String> = vec![format!("p:0"), format!("p:{}", m), "p:255".into()];
+    for n in [2, per + 1] {
+        for v in [1u32, 255] {
+            alpha.push(format!("pv:{}:{}", n, v));
+        }
+    }
+    alpha.push("s:0:0".into());
+    alpha.push("s:0:255".into());
+    alpha.push("clr".into());
+    let mut cur: Vec<Vec<usize>> = vec![vec![]];
+    for _ in 0..4 {
+        let mut nxt = vec![];
+        for h in &cur {
+            for a in 0..alpha.len() {
+                let mut g = h.clone();
+                g.push(a);
+                nxt.push(g);
+            }
+        }
+        for h in &nxt {
+            // a leading / dangling `s:0:…` on an empty container is not a case: skip those histories
+            let mut len = 0usize;
+            let mut ok = true;
+            for &a in h {
+                let s = &alpha[a];
+                if s.starts_with("s:") && len == 0 {
+                    ok = false;
+                    break;
+                }
+                if s.starts_with("pv:2") {
+                    len += 2;
+                } else if s.starts_with("pv:") {
+                    len += per + 1;
+                } else if s.starts_with("p:") {
+                    len += 1;
+                } else if s == "clr" {
+                    len = 0;
+                }
+            }
+            if ok {
+                let ops: Vec<&str> = h.iter().map(|&a| alpha[a].as_str()).collect();
+                out.push(format!("bitenc w:{} c:0 {}", w, ops.join(",")));
+            }
+        }
+        cur = nxt;
+    }
+}
+
+pub fn gen(tier: &str, rng: &mut Rng, out: &mut Vec<String>) {
+    let thorough = tier == "thorough";
+    let n_be = if thorough { 140_000 } else { 4_200 };
+    let n_si = if thorough { 40_000 } else { 1_200 };
+    let n_fw = if thorough { 20_000 } else { 600 };
+    const WIDTHS: [usize; 14] = [1, 2, 3, 3, 4, 5, 5, 6, 6, 7, 7, 7, 8, 3];
+    for i in 0..n_be {
+        let w = WIDTHS[i % WIDTHS.len()];
+        let nops = match rng.below(4) {
+            0 => 1 + rng.below(4),
+            _ => 1 + rng.below(40),
+        };
+        out.push(gen_bitenc(rng, w, nops));
+    }
+    const TYPES: [&str; 4] = ["i8", "u8", "u16", "i16"];
+    for i in 0..n_si {
+        let nops = 1 + rng.below(40);
+        out.push(gen_si(rng, TYPES[i % 4], nops));
+    }
+    for _ in 0..n_fw {
+        let nops = 1 + rng.below(40);
+        out.push(gen_fw(rng, nops));
+    }
+    if thorough {
+        for w in 1..=8 {
+            enum_bitenc(w, out);
+        }
+    }
+}
+
+pub fn exec(toks: &[&str]) -> Result<String, String> {
+    match toks.first() {
+        Some(&"bitenc") => exec_bitenc(toks),
+        Some(&"si") => exec_si(toks),
+        Some(&"fw") => exec_fw(toks),
+        _ => Err("kind".into()),
+    }
 }
